@@ -338,15 +338,24 @@ def spec(tier, seed):
                     for i, nm in enumerate(names):
                         L.append("    vals.append((%r, objs[(sel >> %d) & 1]))" % (nm, i))
                     L.append("    return three_way(P_%s, X_%s, %r, vals)" % (fn, fn, op))
-                else:  # in / not-in: last operand(s) lists
-                    if n != 2:
+                else:  # in / not-in: later operands are containers
+                    if n == 2:
+                        L.append("def %s(x0: int, x1: List[int]) -> bool:" % fn)
+                        L.append('    """')
+                        L.append("    pre: len(x1) <= 3")
+                        L.append("    post: _")
+                        L.append('    """')
+                        L.append("    return three_way(P_%s, X_%s, %r, [('x0', x0), ('x1', x1)])" % (fn, fn, op))
+                    elif n == 3:
+                        # chain: x0 in x1 in x2 ; x2 is a list of lists
+                        L.append("def %s(x0: int, x1: List[int], x2: List[List[int]]) -> bool:" % fn)
+                        L.append('    """')
+                        L.append("    pre: len(x1) <= 2 and len(x2) <= 2 and all(len(e) <= 2 for e in x2)")
+                        L.append("    post: _")
+                        L.append('    """')
+                        L.append("    return three_way(P_%s, X_%s, %r, [('x0', x0), ('x1', x1), ('x2', x2)])" % (fn, fn, op))
+                    else:
                         continue
-                    L.append("def %s(x0: int, x1: List[int]) -> bool:" % fn)
-                    L.append('    """')
-                    L.append("    pre: len(x1) <= 3")
-                    L.append("    post: _")
-                    L.append('    """')
-                    L.append("    return three_way(P_%s, X_%s, %r, [('x0', x0), ('x1', x1)])" % (fn, fn, op))
                 add("\n".join(L), "%s  ==  %s  ==  hy.pyops.%s(...)  [%s]" % (hytext, exp, op, kname), "op/" + op, name=fn)
         # mixed-type operands (TypeError / concatenation / repetition): one concrete odd operand
         if op in ARITH + ["<", "="] and op not in ("@",):
